@@ -931,7 +931,9 @@ class Interp:
                     known = self.nonnull_hint(a)
                     if known:
                         return neg
-                    r = op("isnone", a)
+                    r = self.isnone_term(a)
+                    if r is True or r is False:
+                        return (not r) if neg else r
                     return NOT(r) if neg else r
                 return neg  # concrete non-None value
             if a is None:
@@ -983,6 +985,30 @@ class Interp:
 
     def nonnull_hint(self, a) -> bool:
         return a in self.nonnull
+
+    # results of these library calls are objects, never None
+    NONNULL_RESULTS = ("m_astimezone", "m_replace", "dt_datetime_fromtimestamp", "dt_datetime_fromisoformat", "dt_datetime_strptime",
+                       "dt_datetime", "datetime64", "m_strftime", "comp_list")
+
+    def isnone_term(self, a):
+        """`a is None` for a term: decided on each leaf of a selection, left symbolic on inputs"""
+        a = to_term(a)
+        if a == NONE_T:
+            return True
+        if fname(a) in self.NONNULL_RESULTS or a in self.nonnull or a.is_number:
+            return False
+        if fname(a) == "ite":
+            x, y = self.isnone_term(a.args[1]), self.isnone_term(a.args[2])
+            if x is y and isinstance(x, bool):
+                return x
+            if x is True and y is False:
+                return a.args[0]
+            if x is False and y is True:
+                return NOT(a.args[0])
+            tx = TRUE_T if x is True else (FALSE_T if x is False else x)
+            ty = TRUE_T if y is True else (FALSE_T if y is False else y)
+            return ITE(a.args[0], tx, ty)
+        return op("isnone", a)
 
     def contains(self, container, item, env, node):
         if is_term(container) and fname(container) == "ite":
